@@ -286,6 +286,7 @@ class Scene:
         snap = {}
         for o in self.all:
             ob = o.obj
+            _ = ob.style  # styles are created lazily on first access; initialise so that identity can be compared
             snap[o.name] = {
                 "pos": ob._position,
                 "pos_copy": np.array(ob._position, copy=True),
